@@ -824,7 +824,6 @@ def _sig(kind_set):
 SIGNATURES = {
     "stale_pause_chunked_deadlock": _sig({"deadlock"}),
     "lost_at_close_while_pending": _sig({"lost_at_close"}),
-    "truncated_stream_clean_eof": _sig({"truncated_delivered"}),
     "rewait_ignores_exception": _sig({"stuck_with_exception"}),
 }
 
@@ -1044,7 +1043,9 @@ def suite_handler(ctx, exe, n):
                 except Exception:
                     outs.append("ERR")
                     break
-                outs.append(f"{fw.hexs(o)}/{int(z.data_available)}{int(z.eof)}")
+                # <data_available><eof><mid_stream><DeflateBuffer.feed_eof's stream-end checks would pass>
+                complete = not ((mode != 31 and not z.eof) or z.mid_stream)
+                outs.append(f"{fw.hexs(o)}/{int(z.data_available)}{int(z.eof)}{int(z.mid_stream)}{int(complete)}")
                 if ml and len(o) > ml:
                     ctx.violation({"suite": "handler", "kind": "cap", "mode": mode, "calls": calls}, f"decompress_sync returned {len(o)} bytes for max_length={ml}")
             lines.append("HS %d %s" % (mode, " ".join(calls)))
